@@ -1,9 +1,109 @@
 /-
   Props.C20 — time values convert to and from datetime without changing the instant.
+  Property theorems only (lemmas: Proofs/TimeDigits, Proofs/TimeRoundtrip, Proofs/TimeCanon, Proofs/TimeInstant).
+  The model (Asn1/Time.lean) mirrors /repo after the three C20 `fix:` commits.
 -/
-import Asn1.Time
+import Proofs.TimeRoundtrip
+import Proofs.TimeCanon
 
 namespace Asn1.C20
 open Asn1.Time
+
+/-- GeneralizedTime: every datetime with millisecond precision and a whole-minute offset of less than a day
+    (what `datetime` can hold) is written by `fromDateTime` and read back by `asDateTime` with the same
+    fields — hence the same instant — and the same offset; a naive datetime comes back as UTC. -/
+theorem gt_roundtrip (dt : DT) (v : ValidDT dt) (hms : dt.micro % 1000 = 0) :
+    asDateTime gt (fromDateTime gt dt) = .ok { dt with off := some (dt.off.getD 0) } :=
+  asDateTime_fromDateTime_gt v hms
+
+/-- UTCTime: second precision, and the year inside the window 1969..2068 in which strptime's `%y`
+    (hence pyasn1) places two-digit years. -/
+theorem utc_roundtrip (dt : DT) (v : ValidDT dt) (hy : 1969 ≤ dt.year ∧ dt.year ≤ 2068) (hs : dt.micro = 0) :
+    asDateTime utc (fromDateTime utc dt) = .ok { dt with off := some (dt.off.getD 0) } :=
+  asDateTime_fromDateTime_utc v hy hs
+
+/-- whatever the CER/DER encoders emit for a time value with at most one decimal point ends in `Z`,
+    contains no comma and no offset sign, respects the type's length window, and its fraction — the text
+    between the decimal point and the `Z` — is non-empty (no dangling point) and free of zeros, in
+    particular of trailing zeros. -/
+theorem canon_shape (k : Kind) (s s' : List Char) (h : canonTime k s = .ok s') (h1 : s.count '.' ≤ 1) :
+    s'.getLast? = some 'Z' ∧ ',' ∉ s' ∧ '+' ∉ s' ∧ '-' ∉ s'
+      ∧ (∀ pre frac, s' = pre ++ '.' :: (frac ++ ['Z']) → frac ≠ [] ∧ '0' ∉ frac ∧ frac.getLast? ≠ some '0')
+      ∧ k.minLength < s'.length ∧ s'.length < k.maxLength := by
+  obtain ⟨a, b, c, d, e⟩ := canonTime_shape h h1
+  obtain ⟨_, _, _, _, _, l1, l2⟩ := canonTime_ok h
+  refine ⟨a, b, c, d, ?_, l1, l2⟩
+  intro pre frac hs
+  obtain ⟨n, z⟩ := e pre frac hs
+  exact ⟨n, z, fun hl => z (List.mem_of_getLast? hl)⟩
+
+/-- values without a decimal point (every UTCTime, GeneralizedTime without fraction) are emitted unchanged,
+    so they trivially denote the same instant -/
+theorem canon_identity_without_fraction (k : Kind) (s s' : List Char) (h : canonTime k s = .ok s')
+    (hd : '.' ∉ s) : s' = s := by
+  obtain ⟨_, _, _, _, e, _, _⟩ := canonTime_ok h
+  rw [if_neg hd] at e; exact e
+
+/-- PARTIAL (known finding `canon-inner-zero-deleted`, pinned by
+    tests/codec/cer/test_encoder.py::GeneralizedTimeEncoderTestCase::testWithSubsecondsWithZeros).
+    Full statement demanded by C20:
+      ∀ main frac, AllDig main → AllDig frac → frac ≠ [] →
+        canonTime gt (main ++ '.' :: (frac ++ ['Z'])) = .ok s' → instant gt s' = instant gt (main ++ '.' :: (frac ++ ['Z']))
+    It is false where the fraction has a `0` before a non-zero digit (see `canon_inner_zero_counterexample`).
+    Proved here for exactly the complement: the fraction is a zero-free digit string `f` followed by `n` zeros. -/
+theorem canon_instant_partial (main f : List Char) (n : Nat) (s' : List Char)
+    (hm : AllDig main) (hf : AllDig f) (h0 : '0' ∉ f) (hne : f ≠ [] ∨ n ≠ 0)
+    (h : canonTime gt (main ++ '.' :: (f ++ List.replicate n '0' ++ ['Z'])) = .ok s') :
+    instant gt s' = instant gt (main ++ '.' :: (f ++ List.replicate n '0' ++ ['Z'])) :=
+  canonTime_instant hm hf h0 hne h
+
+/-- what the code does inside the finding's region, on the witness: the interior zeros go, the instant moves -/
+theorem canon_inner_zero_counterexample :
+    canonTime gt "20170801120112.10203Z".toList = .ok "20170801120112.123Z".toList
+      ∧ instant gt "20170801120112.123Z".toList ≠ instant gt "20170801120112.10203Z".toList := by
+  decide
+
+/-- a value that X.680 reads as local time or with a non-zero UTC offset is refused with a library error
+    (never emitted, never another exception) -/
+theorem canon_refuses_nonutc (k : Kind) (s : List Char) (i : Instant)
+    (h : instant k s = some i) (ho : i.off ≠ some 0) : canonTime k s = .error .liberr :=
+  canonTime_refuses_nonutc h ho
+
+/-- any offset sign is refused, also `+0000` -/
+theorem canon_refuses_sign (k : Kind) (s : List Char) (h : '+' ∈ s ∨ '-' ∈ s) :
+    canonTime k s = .error .liberr :=
+  canonTime_refuses_sign k h
+
+/-! ### non-vacuity -/
+
+def sample : DT := ⟨2017, 7, 11, 0, 1, 2, 3000, some (-90)⟩
+
+theorem sample_valid : ValidDT sample :=
+  ⟨by decide, by decide, by decide, by decide, by decide, by decide, by decide,
+   by intro o h; cases h; decide⟩
+
+example : asDateTime gt (fromDateTime gt sample) = .ok sample := gt_roundtrip sample sample_valid (by decide)
+example : asDateTime gt "20170711000102.3-0130".toList = .ok sample := by decide
+example : asDateTime utc (fromDateTime utc { sample with micro := 0, off := none })
+    = .ok { sample with micro := 0, off := some 0 } :=
+  utc_roundtrip _ ⟨by decide, by decide, by decide, by decide, by decide, by decide, by decide,
+    by intro o h; cases h⟩ (by decide) rfl
+example : asDateTime utc "170711000102+0530".toList = .ok ⟨2017, 7, 11, 0, 1, 2, 0, some 330⟩ := by decide
+
+example : canonTime gt "201708011201.10000Z".toList = .ok "201708011201.1Z".toList := by decide
+example : ("201708011201.10000Z".toList).count '.' ≤ 1 := by decide
+example : canonTime gt "20170801120112.000Z".toList = .ok "20170801120112Z".toList := by decide
+example : canonTime utc "9908011201Z".toList = .ok "9908011201Z".toList := by decide
+/-- `canon_instant_partial` instantiated: main = 201708011201, f = 1, n = 4 -/
+example : instant gt "201708011201.1Z".toList = instant gt "201708011201.10000Z".toList :=
+  canon_instant_partial "201708011201".toList ['1'] 4 _ (by decide) (by decide) (by decide) (Or.inl (by decide))
+    (by decide)
+example : instant gt "2017080112.5+0130".toList = some ⟨2017, 8, 1, 45000000000, 0, some 90⟩ := by decide
+example : canonTime gt "2017080112.5+0130".toList = .error .liberr :=
+  canon_refuses_nonutc gt _ ⟨2017, 8, 1, 45000000000, 0, some 90⟩ (by decide) (by decide)
+example : instant gt "20170801120112".toList = some ⟨2017, 8, 1, 43272000000, 0, none⟩ := by decide
+example : canonTime gt "20170801120112".toList = .error .liberr :=
+  canon_refuses_nonutc gt _ _ (by decide : instant gt "20170801120112".toList = some ⟨2017, 8, 1, 43272000000, 0, none⟩)
+    (by decide)
 
 end Asn1.C20
